@@ -57,6 +57,10 @@ class Environment:
     def with_outer_namespace(self, outer_namespace):
         return self.__class__(self._namespaces + [outer_namespace])
 
+    def snapshot(self):
+        """A new environment with shallow copies of the namespaces, i.e. the current bindings."""
+        return self.__class__([dict(namespace) for namespace in self._namespaces])
+
     @classmethod
     def capture(cls, env=0, reference=0):
         if isinstance(env, cls):
